@@ -99,7 +99,7 @@ class Machine(object):
     assumptions = []
     # per-run caps
     chunk = 50            # runs per forked child
-    run_timeout = 60.0    # wall seconds before a child is declared hung
+    run_timeout = 240.0   # wall seconds without progress before a child is declared hung
     quick_runs = 2000
     thorough_runs = 40000
     selftest_runs = 32
